@@ -291,7 +291,55 @@ def probe_alias():
   return out
 
 
+def metadata_edits(cases):
+  """functions that edit the METADATA of a Variable they were given (remove an entry, re-bind one, add one) next to its value, run
+  eagerly and under a transform, twice in a row on the same objects: the caller's Variables end up the same"""
+  import numpy as np
+  out = []
+  for c in cases:
+    def mk():
+      class Model(nnx.Module):
+        def __init__(self):
+          self.w = nnx.Param(jnp.arange(3, dtype=jnp.int64) + 1, warmup=True, tag='a', extra=1)
+          self.steps = nnx.Variable(jnp.zeros((), jnp.int64))
+      return Model()
+
+    def step(m, x):
+      md = m.w.get_metadata()
+      lr = 1
+      if 'rm_flag' in c['edits'] and 'warmup' in md:
+        lr = 3
+        del m.w.warmup
+      if 'rm_extra' in c['edits'] and 'extra' in md:
+        del m.w.extra
+      if 'rebind' in c['edits']:
+        m.w.tag = 'b'
+      if 'add' in c['edits']:
+        m.w.seen = True
+      m.w.value = m.w.value + lr * x
+      m.steps.value = m.steps.value + 1
+      return (m.w.value * x).sum()
+    kind = c['kind']
+    fn = {'jit': lambda: nnx.jit(step), 'remat': lambda: nnx.remat(step), 'cond': lambda: (lambda m, x: nnx.cond(x.sum() > 0, step, step, m, x)),
+          'switch': lambda: (lambda m, x: nnx.switch(0, [step, step], m, x))}[kind]()
+    snap = lambda m: {'w': np.asarray(m.w.value).tolist(), 'steps': int(m.steps.value), 'meta': sorted((k, repr(v)) for k, v in m.w.get_metadata().items())}
+    try:
+      eager, lifted = mk(), mk()
+      w0 = lifted.w
+      rows = []
+      for call in range(2):
+        x = jnp.full((3,), call + 1, dtype=jnp.int64)
+        ye, yl = step(eager, x), fn(lifted, x)
+        rows.append({'y_same': int(ye) == int(yl), 'state_same': snap(eager) == snap(lifted), 'same_object': lifted.w is w0, 'eager': snap(eager), 'lifted': snap(lifted)})
+      out.append({'ok': rows})
+    except Exception as e:  # pylint: disable=broad-except
+      out.append({'err': type(e).__name__, 'msg': str(e)[:200]})
+  return out
+
+
 def main(payload):
+  if 'metadata_edits' in payload:
+    return {'metadata_edits': metadata_edits(payload['metadata_edits'])}
   if payload.get('probe'):
     return {'F16-cached-partial-stale': probe_f16(), 'F20-cached-partial-array-attr': probe_f20(), 'alias': probe_alias()}
   res = []
